@@ -3,11 +3,13 @@ import os
 import vlib
 
 AUDIO = {"supported": ["opus/111"], "unsupported": ["bar/121"], "mixed": ["bar/121", "opus/109", "pcmu/0"], "subset": ["pcmu/0"],
-         "renumbered": ["opus/109", "pcmu/0"]}
+         "renumbered": ["opus/109", "pcmu/0"], "twice": ["opus/111", "opus/109"]}
 VIDEO = {"supported": ["vp8/96", "rtx96/97", "h264/102"], "unsupported": ["foo/120"],
          "mixed": ["foo/120", "vp8/100", "h264/125"], "subset": ["vp8/100"],
          # the peer's numbering collides with pion's defaults: 98/99 are VP9 + its RTX there, 96/97 VP8 + its RTX
-         "renumbered": ["vp8/98", "rtx98/99"], "renumbered2": ["h264/96", "rtx96b/97", "vp8/98", "rtx98/99"]}
+         "renumbered": ["vp8/98", "rtx98/99"], "renumbered2": ["h264/96", "rtx96b/97", "vp8/98", "rtx98/99"],
+         # one codec under two payload types
+         "twice": ["vp8/96", "vp8/100"]}
 PRE = {"none": [],
        "audio-sendrecv-track": [{"op": "addTrack", "who": "A", "kind": "audio"}],
        "video-recvonly": [{"op": "addTransceiver", "who": "A", "kind": "video", "dir": "recvonly"}],
@@ -165,12 +167,14 @@ def run_sdp(ctx, prop, configs, nwalk_q, nwalk_t, own_preds):
     vlib.go_run(ctx, binary, "TestVerifSdp", infile, trace, timeout=1500, env={"VERIF_WORKERS": "12"})
     ctx.viol = vlib.tlc_trace(ctx, "Sdp_Trace", "Sdp_Trace", trace, chunk=4000)
     pr = ctx.cov["predicates"]
-    missing = [p for p in own_preds if not pr.get(p)]
+    def count(p):   # predicates with a detail are counted as "name:detail"
+        return sum(n for k, n in pr.items() if k == p or k.startswith(p + ":"))
+    missing = [p for p in own_preds if not count(p)]
     if missing:
         raise vlib.NoVerdict("predicates not exercised: %s" % missing)
     lines = vlib.read_ndjson(trace)
     descs = [l for l in lines if l["ev"] == "desc"]
-    ctx.cov["evaluations"] = sum(pr.get(p, 0) for p in own_preds)
+    ctx.cov["evaluations"] = sum(count(p) for p in own_preds)
     ctx.cov["descriptions_judged"] = len(descs)
     ctx.cov["traces_validated_against_impl"] = len(beh)
     shapes = {(l["op"], l["cfg"], tuple((s["kind"], s["mid"], s["port"] != 0, tuple(s["dirs"])) for s in l["d"]["sections"]))
